@@ -300,7 +300,8 @@ def run_chunk(spec):
         if n < 1 and ci == 0:
             res.sample({"levels": levels, "events": ETYPES, "config": build(levels)})
         n += 1
-    # Part 2: two levels, sizes (<=1, <=1) complete in quick, (<=2, <=1)+(<=1,<=2) in thorough
+    # Part 2: two levels, sizes (<=1, <=1) complete plus (2, 1 unguarded) in quick,
+    # (<=2, <=1)+(<=1,<=2) in thorough
     def two_level():
         a1 = list(level_sets(1))
         a2 = list(level_sets(2)) if tier == "thorough" else a1
@@ -312,6 +313,14 @@ def run_chunk(spec):
                 for y in a2:
                     if len(y) == 2:
                         yield [x, y, ()]
+        else:
+            # two candidates in the child x one unguarded handler in the parent: which of the
+            # child's candidates consumes, passes or blocks the event decides whether the parent runs
+            for x in level_sets(2):
+                if len(x) == 2:
+                    for y in a1:
+                        if y[0][1] == "plain":
+                            yield [x, y, ()]
     for i, levels in enumerate(two_level()):
         if i % NCHUNKS != ci:
             continue
